@@ -71,6 +71,7 @@ type DB struct {
 	writeDelay   time.Duration
 	writeDelayN  int
 	tr           *Transaction
+	trMu         sync.Mutex // Guards tr between OpenTransaction/setDone and Close.
 
 	// Compaction.
 	compCommitLk     sync.Mutex
@@ -1211,9 +1212,14 @@ func (db *DB) Close() error {
 	// Signal all goroutines.
 	close(db.closeC)
 
-	// Discard open transaction.
-	if db.tr != nil {
-		db.tr.Discard()
+	// Discard open transaction. An OpenTransaction that registers its
+	// transaction after this point sees the closed flag and discards it
+	// itself.
+	db.trMu.Lock()
+	tr := db.tr
+	db.trMu.Unlock()
+	if tr != nil {
+		tr.Discard()
 	}
 
 	// Acquire writer lock.
